@@ -229,10 +229,20 @@ type Frame struct {
 	pathMode   bool // loop-free function explored path by path, without merging states at joins
 	pathCount  int
 	beforeSeen int // call-site assertions ("before") emitted
+	// ghost history of static calls made by the function under verification: callee name -> the
+	// path condition at the (last) call and its results; read by wascalled() / lastcall()
+	callHist map[string]*callRec
 	// defer stack bookkeeping (defer.go)
 	inDefers    bool // deferred calls are running
 	deferIdx    int  // index of the deferred call being run
 	sawRepeated bool // a deferred call registered in a loop was passed: panicking mode unknown
+}
+
+type callRec struct {
+	pc      *smt.Term
+	results []Value
+	types   []types.Type
+	n       int
 }
 
 type deferRec struct {
